@@ -88,12 +88,34 @@ def make_model(tab):
     df = make_frame(tab)
     cols = []
     for c in tab.columns:
-        key = (c, tab.types[c], str(df[c].dtype))
+        drop = c in tab.dropped and not tab.dropvia
+        key = (c, tab.types[c], str(df[c].dtype), drop)
         if key not in _COLINFO:  # ColumnInfo is immutable; creating one costs ~15 ms (Unit -> sympy)
-            _COLINFO[key] = ColumnInfo.create(c, type=key[1], datatype=key[2])
+            _COLINFO[key] = ColumnInfo.create(c, type=key[1], datatype=key[2], drop=drop)
         cols.append(_COLINFO[key])
     di = DataInfo.create(cols)
-    return base_model(tab.kind).replace(dataset=df, datainfo=di)
+    model = base_model(tab.kind).replace(dataset=df, datainfo=di)
+    if tab.dropped and tab.dropvia:
+        # the multi-step route: columns retired by the user with drop_columns(..., mark=True)
+        from pharmpy.modeling import drop_columns
+
+        def f():
+            with warnings.catch_warnings():
+                warnings.simplefilter('ignore')
+                return drop_columns(model, list(tab.dropped), mark=True)
+
+        marked = guard(f, allowed=(), clause='drop_columns[mark]')
+        if list(marked.dataset.columns) != tab.columns or [c.name for c in marked.datainfo if c.drop] != [c for c in tab.columns if c in tab.dropped]:
+            raise Violation('drop_columns[mark]:result', observed=[(c.name, c.drop) for c in marked.datainfo], expected=tab.dropped)
+        return marked
+    return model
+
+
+def sub_table(tab, rows):
+    """the same table restricted to some records (e.g. one individual)"""
+    from ..gen.gen_events import Table
+
+    return Table([tab.records[i] for i in rows], tab.meta, tab.types, tab.kind, tab.flags, dropped=tab.dropped, dropvia=tab.dropvia)
 
 
 def call(fn, tab, *args, clause, **kwargs):
@@ -149,6 +171,7 @@ def prep(spec):
     classes = sorted(feats) + [k for k, v in sorted(tab.flags.items()) if v] + [tab.kind]
     if restart_individuals(tab):
         classes.append('time_restart_effective')
+    classes.extend('dropped:' + tab.types[c] for c in tab.dropped)
     amts = [r['AMT'] for r in tab.records if r['AMT'] != 0]
     if any(0 < x < 1 for x in amts):
         classes.append('amt_between_0_and_1')
@@ -159,6 +182,27 @@ def prep(spec):
 
 def info(tab, feats, classes, evals):
     return CaseInfo(nontrivial=bool(feats), classes=tuple(dict.fromkeys(classes)), render=tab.render(), evals=evals)
+
+
+def check_independent(fn, tab, full_values, clause, only_last=False):
+    """per-individual walk: what a function derives for the records of an individual must not
+    depend on the other individuals in the dataset -> f(table)[rows of i] == f(table of i alone).
+    Returns the number of evaluations."""
+    inds = W.individuals(tab.records, tab.meta)
+    if len(inds) < 2:
+        return 0
+    n = 0
+    for _id, rows in (inds[-1:] if only_last else inds):
+        res = call(fn, sub_table(tab, rows), clause=f'{clause}[single-individual]')
+        vals = res if isinstance(res, list) else need_series(res, f'{clause}[single-individual]').tolist()
+        n += 1
+        full = [full_values[i] for i in rows]
+        if len(vals) != len(full) or any(not same(a, b) for a, b in zip(vals, full)):
+            raise Violation(
+                f'{clause}:depends-on-other-individuals', observed=full, expected=vals,
+                detail=f'individual {_id}: within the whole table {full}, alone {vals}; {tab.render()}',
+            )
+    return n
 
 
 def need_series(x, clause, n_expected=None, what=''):
@@ -337,7 +381,8 @@ def run_doseid(spec):
                 f'get_doseid{ctx}:{tags[i]}', observed=got, expected=exp,
                 detail=f'record {i} (individual {rid(tab, i)}): got {got[i]}, expected {exp[i]} [{tags[i]}]; {tab.render()}',
             )
-    return info(tab, feats, classes, 1)
+    ev = 1 + check_independent(get_doseid, tab, got, 'get_doseid')
+    return info(tab, feats, classes, ev)
 
 
 # ------------------------------------------------------------------------------------------
@@ -392,7 +437,13 @@ def run_tad(spec):
                 f'tad{ctx}:value:{tags[i]}', observed=got, expected=exp,
                 detail=f'record {i} (individual {rid(tab, i)}): TAD={got[i]}, expected {exp[i]} [{tags[i]}]; {tab.render()}',
             )
-    return info(tab, feats, classes, 1)
+    def tad_alone(model):
+        d = add_time_after_dose(model).dataset
+        order = sorted(range(len(d)), key=lambda p: d['ROW'].iloc[p])
+        return [d['TAD'].iloc[p] for p in order]
+
+    ev = 1 + check_independent(tad_alone, tab, got, 'tad', only_last=True)
+    return info(tab, feats, classes, ev)
 
 
 def _order_clause(rows, tab, prefix):
@@ -429,6 +480,8 @@ def _frame_checks(df, tab, prefix, new_cols, rows, orig_rows_only=None, datainfo
         for c in tab.columns:
             if datainfo[c].type != tab.types[c]:
                 raise Violation(f'{prefix}:datainfo-type', observed=f'{c}: {datainfo[c].type}', expected=tab.types[c])
+            if bool(datainfo[c].drop) != (c in tab.dropped):
+                raise Violation(f'{prefix}:datainfo-drop-flag', observed=f'{c}: drop={datainfo[c].drop}', expected=c in tab.dropped)
     changed = [(c, str(orig[c].dtype), str(df[c].dtype)) for c in tab.columns if str(df[c].dtype) != str(orig[c].dtype)]
     other = [x for x in changed if not (x[1].startswith('int') and x[2] == 'float64')]
     if other:
@@ -625,6 +678,7 @@ def run_cmt_admid(spec):
     if len(s) != n or not range_index_ok(s, n):
         raise Violation('get_cmt:index', observed=list(s.index), expected=list(range(n)))
     _compare_tagged(s.tolist(), exp, tags, 'get_cmt', tab, classes)
+    cmt_values = s.tolist()
 
     exp, tags = W.admid(recs, meta)
     s = call(get_admid, tab, clause='get_admid')
@@ -632,7 +686,30 @@ def run_cmt_admid(spec):
     if len(s) != n or not range_index_ok(s, n):
         raise Violation('get_admid:index', observed=list(s.index), expected=list(range(n)))
     _compare_tagged(s.tolist(), exp, tags, 'get_admid', tab, classes)
-    return info(tab, feats, classes, 2)
+
+    # shapes in which state could leak between individuals
+    inds = W.individuals(recs, meta)
+    last_route = []
+    for k, (_id, rows) in enumerate(inds):
+        lead = 0
+        for i in rows:
+            if W.is_dose(recs[i], meta):
+                break
+            lead += 1
+        doses = [i for i in rows if W.is_dose(recs[i], meta)]
+        last_route.append(cmt_values[doses[-1]] if doses else None)
+        if k > 0 and lead >= 2:
+            classes.append('later_individual_with_2+_records_before_first_dose')
+            if meta['admid'] is None and last_route[k - 1] is not None:
+                classes.append('generated_admid:2+_predose_records_after_an_individual_with_doses')
+                if not same(last_route[k - 1], cmt_values[rows[0]]):
+                    classes.append('generated_admid:predose_records_after_individual_with_other_last_route')
+    if len({r for r in last_route if r is not None}) > 1:
+        classes.append('individuals_with_different_last_route')
+    ev = 2
+    ev += check_independent(get_admid, tab, s.tolist(), 'get_admid')
+    ev += check_independent(get_cmt, tab, cmt_values, 'get_cmt')
+    return info(tab, feats, classes, ev)
 
 
 def run_add_cmt_admid(spec):
@@ -644,6 +721,11 @@ def run_add_cmt_admid(spec):
     ev = 0
     for fn, getter, role, name, typ in ((add_cmt, get_cmt, 'cmt', 'CMT', 'compartment'), (add_admid, get_admid, 'admid', 'ADMID', 'admid')):
         pre = fn.__name__
+        if name in tab.dropped:
+            # a column of that name and type exists but is marked as dropped: whether it is
+            # replaced, kept or re-activated is not documented
+            classes.append(f'unspecified:{pre}-with-dropped-{name}-column')
+            continue
         res = call(fn, tab, clause=pre)
         ev += 1
         df = res.dataset
@@ -694,7 +776,7 @@ def run_baselines(spec):
 
         if not isinstance(df, pd.DataFrame):
             raise Violation(f'{clause}:not-a-dataframe', observed=type(df).__name__)
-        if list(df.columns) != cols:
+        if [c for c in df.columns if c not in tab.dropped] != cols:
             raise Violation(f'{clause}:columns', observed=list(df.columns), expected=cols)
         got_ids = df.index.tolist()
         if sorted(got_ids) != sorted(ids) or (sorted_ids and got_ids != ids):
@@ -719,8 +801,8 @@ def run_baselines(spec):
             if v0 != v0 and any(recs[i][c] == recs[i][c] for i in rows[1:]):
                 classes.append('first_record_missing_later_value:' + tab.types[c])
     df = call(get_baselines, tab, clause='get_baselines')
-    cols = [c for c in tab.columns if c != meta['id']]
-    check_frame(df, W.baselines(recs, meta), cols, 'get_baselines')
+    cols = [c for c in tab.columns if c != meta['id'] and c not in tab.dropped]
+    check_frame(df, W.baselines(recs, meta, cols), cols, 'get_baselines')
 
     covs = meta['covariates']
     classes.append(f'ncov={len(covs)}')
@@ -889,6 +971,7 @@ KNOWN_PREDICATES = {
     'additional_dose_pending_at_reset': lambda spec: (lambda t: bool(W.expansion(t.records, t.meta)['crossing']))(build(spec)),
     'admid_column_and_oral_only_model': lambda spec: (lambda t: t.kind == 'oral' and t.meta['admid'] is not None and t.meta['cmt'] is None)(build(spec)),
     'reset_dose_record_without_admid_column': _reset_dose_without_admid_column,
+    'addl_column_without_ii_column': lambda spec: (lambda m: m['addl'] is not None and m['ii'] is None)(build(spec).meta),
 }
 
 
@@ -927,6 +1010,7 @@ DEFECTS = {
     'D8': 'add_time_after_dose gives negative TAD after a reset (TIME restarting at EVID=3, or additional doses still pending at the reset)',
     'D9': 'get_cmt with an admid column raises UnboundLocalError when no dose goes into the central compartment (oral model)',
     'D10': 'get_admid treats only EVID=1 as a dose: an EVID=4 (reset and dose) record gets the previous admid',
+    'D11': "add_time_after_dose raises KeyError 'EXPANDED' when there is an additional (ADDL) column but no usable ii column (expand_additional_doses then returns the model unchanged)",
 }
 
 PROPOSED_KNOWN_FINDINGS = [
@@ -967,6 +1051,8 @@ PROPOSED_KNOWN_FINDINGS = [
     ('D9', 'cmt_admid', 'get_cmt:UnboundLocalError@modeling/data.py:get_cmt', 'admid_column_and_oral_only_model', {'kind': 1, 'cols': {'admid': True}}),
     ('D9', 'add_cmt_admid', 'add_cmt:UnboundLocalError@modeling/data.py:get_cmt', 'admid_column_and_oral_only_model', {'kind': 1, 'cols': {'admid': True}}),
     ('D10', 'cmt_admid', 'get_admid:reset-dose', 'reset_dose_record_without_admid_column', {'cols': {'evid': True}, 'inds': [{'recs': [{}, {'k': 4}]}]}),
+    ('D11', 'tad', 'add_time_after_dose:KeyError@modeling/data.py:add_time_after_dose', 'addl_column_without_ii_column', {'cols': {'addl': True}, 'dropped': {'ii': True}}),
+    ('D11', 'tad_frame', 'add_time_after_dose:KeyError@modeling/data.py:add_time_after_dose', 'addl_column_without_ii_column', {'cols': {'addl': True}, 'dropped': {'ii': True}}),
 ]
 
 
